@@ -17,6 +17,9 @@ ASSUMPTIONS = [
     'opposite sides are listed second and fourth',
     'truth vectors come from the construction (sum of the two vertices of '
     'the crossed side)',
+    'oblique prisms (end planes parallel to each other but not perpendicular '
+    'to the axis): neighbouring elements share whole faces, so a1 and a2 are '
+    'parallel to the end planes and a3 is parallel to the axis',
 ] + c06.ASSUMPTIONS[2:]
 ANCHORS = ['hexSortSides', 'areHexSidesAdjacent', 'hexVertices',
            'hexLatticeBaseVectors', 'pointInPlaneIntersection',
